@@ -126,6 +126,8 @@ class BaseTransformation(ABC):
         # Convert to right output type
         if array_input:
             return self.output_array_dtype(out_arr)
+        elif self.output_dtype is np.ndarray:
+            return out_arr[0]
         else:
             return self.output_dtype(out_arr[0])
 
@@ -158,6 +160,8 @@ class BaseTransformation(ABC):
         # Convert to right output type
         if array_input:
             return self.input_array_dtype(out_arr)
+        elif self.input_dtype is np.ndarray:
+            return out_arr[0]
         else:
             return self.input_dtype(out_arr[0])
 
